@@ -39,5 +39,23 @@ func unwrapJSONNumber(input any) any {
 		return val.String()
 	}
 
+	// numbers nested in array and object values (defaults, mostly)
+	if list, ok := input.([]any); ok {
+		unwrapped := make([]any, len(list))
+		for i, item := range list {
+			unwrapped[i] = unwrapJSONNumber(item)
+		}
+
+		return unwrapped
+	}
+	if object, ok := input.(map[string]any); ok {
+		unwrapped := make(map[string]any, len(object))
+		for key, item := range object {
+			unwrapped[key] = unwrapJSONNumber(item)
+		}
+
+		return unwrapped
+	}
+
 	return input
 }
